@@ -241,6 +241,22 @@ inline bool run(std::string const& name) {
 		sink(cA({1, 3}, {1, 3}).elements_at(4));
 		return true;
 	}
+	if(name == "x_elements_at_negative") {  // size_type is signed: -1 passes idx < num_elements(); the inner operator[] stops it
+		auto A = iota2(3, 4);
+		sink(A.elements_at(-1));
+		return true;
+	}
+	if(name == "x_elements_at_negative_row") {  // -5 / 4 == -1: stopped by the outer operator[]
+		auto A = iota2(3, 4);
+		sink(std::move(A).elements_at(-5));
+		return true;
+	}
+	if(name == "x_elements_at_1d_negative") {
+		auto V = iota1(5);
+		auto const& cV = V;
+		sink(cV.elements_at(-1));
+		return true;
+	}
 	if(name == "x_elements_at_1d_beyond") {
 		auto V = iota1(5);
 		auto&& w = V({1, 4});
